@@ -29,7 +29,7 @@ import (
 // deadlines: a watchdog that fires is inconclusive.
 
 type c19Stats struct {
-	conns, requests, responsesChecked, settings, rst, cancels, closes, sitesHit atomic.Int64
+	conns, requests, responsesChecked, settings, rst, cancels, closes, sitesHit, rtErrors, rtCalls atomic.Int64
 	interleavings                                                                sync.Map
 }
 
@@ -84,7 +84,7 @@ func TestC19(t *testing.T) {
 		nconn := 4 + rng.Intn(6)
 		for c := 0; c < nconn; c++ {
 			seed := rng.Int63()
-			kind := c % 3
+			kind := c % 4
 			wg.Add(1)
 			go func(c int) {
 				defer wg.Done()
@@ -95,6 +95,8 @@ func TestC19(t *testing.T) {
 					msg = c19Server(lr, fmt.Sprintf("%s.s%d", id, c), &stats)
 				case 2:
 					msg = c19Client(lr, fmt.Sprintf("%s.c%d", id, c), &stats)
+				case 3:
+					msg = c19RoundTrip(lr, fmt.Sprintf("%s.r%d", id, c), &stats)
 				}
 				if msg != "" {
 					fails.Store(c, msg)
@@ -136,6 +138,9 @@ func TestC19(t *testing.T) {
 	r.Inc("rst_stream_sent", stats.rst.Load())
 	r.Inc("cancels", stats.cancels.Load())
 	r.Inc("closes", stats.closes.Load())
+	stats.interleavings.Range(func(k, v any) bool { r.Inc("roundtrip_error:"+k.(string)[6:], v.(*atomic.Int64).Load()); return true })
+	r.Inc("roundtrip_calls_over_tls", stats.rtCalls.Load())
+	r.Inc("roundtrip_calls_ending_in_error(timeouts, resets, goaway, disconnects)", stats.rtErrors.Load())
 	r.Inc("perturbation_points_passed", stats.sitesHit.Load())
 }
 
@@ -422,19 +427,25 @@ func c19Client(rng *rand.Rand, id string, stats *c19Stats) string {
 				req, res := &fasthttp.Request{}, &fasthttp.Response{}
 				req.SetRequestURI("https://c.example/" + tag)
 				req.Header.Add("x-vtag", tag)
+				streamed := false
 				switch lr.Intn(3) {
 				case 1:
 					req.Header.SetMethod("POST")
 					req.SetBody(make([]byte, lr.Intn(40000)))
 				case 2:
 					req.Header.SetMethod("POST")
-					req.SetBodyStream(bytes.NewReader(make([]byte, lr.Intn(40000))), -1)
+					if lr.Intn(2) == 0 {
+						req.SetBodyStream(bytes.NewReader(make([]byte, lr.Intn(40000))), -1)
+					} else { // many small reads, so that a Cancel or Close finds the write loop reading the body
+						streamed = true
+						req.SetBodyStream(&slowReader{b: make([]byte, lr.Intn(150000)), chunk: 1 + lr.Intn(2000)}, -1)
+					}
 				}
 				ctx := &http2.Ctx{Request: req, Response: res, Err: make(chan error, 1)}
 				stats.requests.Add(1)
 				c.Write(ctx)
-				if lr.Intn(6) == 0 {
-					time.Sleep(time.Duration(lr.Intn(500)) * time.Microsecond)
+				if lr.Intn(6) == 0 || (streamed && lr.Intn(2) == 0) {
+					time.Sleep(time.Duration(lr.Intn(1500)) * time.Microsecond)
 					c.Cancel(ctx)
 					stats.cancels.Add(1)
 				}
@@ -468,6 +479,147 @@ func c19Client(rng *rand.Rand, id string, stats *c19Stats) string {
 	case <-serverDone:
 	case <-time.After(20 * time.Second):
 	}
+	if m, ok := failMsg.Load().(string); ok {
+		return m
+	}
+	return ""
+}
+
+// c19RoundTrip: HostClient + ConfigureClient over TLS in real time: concurrent callers that recycle their
+// pooled Request/Response the moment RoundTrip returns, a MaxResponseTime of a few milliseconds, and a
+// scripted server that answers at once, late, never, with RST_STREAM, with GOAWAY or by disconnecting.
+func c19RoundTrip(rng *rand.Rand, id string, stats *c19Stats) string {
+	stats.conns.Add(1)
+	srvSeed := rng.Int63()
+	var smu sync.Mutex
+	lr := rand.New(rand.NewSource(srvSeed))
+	roll := func(n int) int { smu.Lock(); defer smu.Unlock(); return lr.Intn(n) }
+	tags := map[string]string{}
+	var late sync.WaitGroup
+	e, err := rt.NewRTEnv(id, http2.ClientOpts{MaxResponseTime: time.Duration(15+rng.Intn(60)) * time.Millisecond, PingInterval: 3 * time.Millisecond},
+		[]wire.Setting{{ID: 3, Val: uint32(2 + rng.Intn(60))}, {ID: 4, Val: 1 << 20}})
+	if err != nil {
+		return ""
+	}
+	e.OnFrame = func(rc *rt.RTConn, f rt.Frame) {
+		key := fmt.Sprintf("%d/%d", rc.Index, f.Stream)
+		switch f.Type {
+		case wire.THeaders, wire.TContinuation:
+			if f.BlockDone {
+				for _, x := range f.Fields {
+					if x.Name == "x-vtag" {
+						smu.Lock()
+						tags[key] = x.Value
+						smu.Unlock()
+					}
+				}
+			}
+		case wire.TData:
+			if f.Len > 0 {
+				rc.P.Write(append(rt.WindowUpdate(0, uint32(f.Len)), rt.WindowUpdate(f.Stream, uint32(f.Len))...))
+			}
+		default:
+			return
+		}
+		if !f.EndStream {
+			return
+		}
+		smu.Lock()
+		tag := tags[key]
+		delete(tags, key)
+		smu.Unlock()
+		if tag == "" {
+			return
+		}
+		answer := func() {
+			blk := rc.P.EncodeBlock([]F{{Name: ":status", Value: "200"}, {Name: "x-rtag", Value: tag}}, nil)
+			out := rt.Concat(rt.HeaderFrames(f.Stream, blk, nil, -1, nil, false))
+			body := bytes.Repeat([]byte(tag+"|"), 1+roll(200))
+			out = append(out, rt.Concat(rt.DataFrames(f.Stream, body, []int{16384, 100 + roll(5000)}, nil, true))...)
+			rc.P.Write(out)
+		}
+		switch x := roll(100); {
+		case x < 55:
+			answer()
+		case x < 80: // late: around the client's timeout
+			d := time.Duration(roll(90000)) * time.Microsecond
+			late.Add(1)
+			go func() { defer late.Done(); time.Sleep(d); answer() }()
+		case x < 88: // never
+		case x < 93:
+			rc.P.Write(rt.RstStream(f.Stream, uint32([]int{2, 7, 8}[roll(3)])))
+		case x < 97:
+			rc.P.Write(rt.GoAway(f.Stream, 0, "bye"))
+			answer()
+		default:
+			rc.Raw.Close()
+		}
+	}
+	ncallers := 2 + rng.Intn(10)
+	var wg sync.WaitGroup
+	var failMsg atomic.Value
+	for k := 0; k < ncallers; k++ {
+		seed := rng.Int63()
+		wg.Add(1)
+		go func(k int) {
+			defer wg.Done()
+			cr := rand.New(rand.NewSource(seed))
+			for j := 0; j < 3+cr.Intn(8); j++ {
+				tag := fmt.Sprintf("%s.%d.%d", id, k, j)
+				req, res := fasthttp.AcquireRequest(), fasthttp.AcquireResponse()
+				req.SetRequestURI("https://h2v.example/" + tag)
+				req.Header.Add("x-vtag", tag)
+				switch cr.Intn(3) {
+				case 1:
+					req.Header.SetMethod("POST")
+					req.SetBody(bytes.Repeat([]byte{byte(k)}, cr.Intn(40000)))
+				case 2:
+					req.Header.SetMethod("PUT")
+					req.SetBodyStream(&slowReader{b: bytes.Repeat([]byte{byte(k)}, cr.Intn(60000)), chunk: 1 + cr.Intn(3000)}, -1)
+				}
+				stats.requests.Add(1)
+				stats.rtCalls.Add(1)
+				_, err := e.Client.RoundTrip(e.HC, req, res)
+				if err == nil {
+					tagGot := string(res.Header.Peek("x-rtag"))
+					b := res.Body()
+					if tagGot != tag || bytes.Count(b, []byte(tag+"|"))*len(tag+"|") != len(b) {
+						failMsg.Store(fmt.Sprintf("%s: RoundTrip for %s returned the response tagged %q with a %d-byte body that is not a repetition of its tag", id, tag, tagGot, len(b)))
+					}
+					stats.responsesChecked.Add(1)
+				} else {
+					stats.rtErrors.Add(1)
+					m := err.Error()
+					if len(m) > 60 {
+						m = m[:60]
+					}
+					v, _ := stats.interleavings.LoadOrStore("rterr:"+m, new(atomic.Int64))
+					v.(*atomic.Int64).Add(1)
+				}
+				// the caller recycles both at once, as fasthttp's own client does
+				fasthttp.ReleaseRequest(req)
+				fasthttp.ReleaseResponse(res)
+			}
+		}(k)
+	}
+	if rng.Intn(4) == 0 {
+		d := time.Duration(rng.Intn(200000)) * time.Microsecond
+		go func() {
+			time.Sleep(d)
+			e.Client.Close()
+			stats.closes.Add(1)
+		}()
+	}
+	done := make(chan struct{})
+	go func() { wg.Wait(); close(done) }()
+	select {
+	case <-done:
+	case <-time.After(60 * time.Second):
+		e.Close()
+		return ""
+	}
+	e.Close()
+	late.Wait()
 	if m, ok := failMsg.Load().(string); ok {
 		return m
 	}
